@@ -1,6 +1,6 @@
 """C24 Tables isolate their key spaces.
-Spec: specs/kv/Table.tla (two tables over one underlying store, 7 prefix pairs incl. empty, 0x00/0xff
-boundaries, prefix-of-one-another and a NewTable-nested pair; table view = stripped restriction; writes,
+Spec: specs/kv/Table.tla (two tables over one underlying store, 9 prefix pairs incl. empty, 0x00/0xff
+boundaries, prefix-of-one-another and NewTable-nested pairs, two of them with non-commuting parent/own prefixes; table view = stripped restriction; writes,
 batches, replays into either table, snapshots through a table, direct writes to the underlying store) and
 specs/kv/TableCompact.tla (trace spec: the range Compact(nil,nil) hands to the underlying store covers the
 prefix).  TLC explores the bounded model; every transition is replayed (pattern R) on real tables over a
@@ -19,6 +19,40 @@ from checks import c23 as kvlib
 
 def hexs(b):
     return "".join("%02x" % x for x in b)
+
+
+def noncommuting(cf):
+    """nested configuration whose parent prefix and own prefix do not commute (one character per byte)"""
+    if not cf["nested"]:
+        return False
+    own = cf["p2"][len(cf["p1"]):]
+    return cf["p1"] + own != own + cf["p1"]
+
+
+def spec_nested_snapshots(path, conf):
+    """States of Table.tla with a live snapshot taken through the nested table of a non-commuting configuration:
+    (all, those whose snapshot view of that table is non-empty, those where the store also holds a key under the
+    prefixes taken in the wrong order own+parent)."""
+    n = nonempty = foreign = 0
+    with open(path) as f:
+        for line in f:
+            if not line.startswith('{"key"'):
+                continue
+            if '"live":true' not in line:
+                continue
+            st = json.loads(line)["state"]
+            sn = st["snap"]
+            cf = conf["cfgs"][st["cfg"] - 1]
+            if not (sn["live"] and sn["t"] == 2 and noncommuting(cf)):
+                continue
+            n += 1
+            keys = [p[0] for p in sn["view"]]
+            wrong = cf["p2"][len(cf["p1"]):] + cf["p1"]
+            if any(k.startswith(cf["p2"]) for k in keys):
+                nonempty += 1
+            if any(k.startswith(wrong) for k in keys):
+                foreign += 1
+    return n, nonempty, foreign
 
 
 def start_table_iter(c, conf):
@@ -64,6 +98,17 @@ def run(c):
         out["edges"], len(adapters), {k: round(v, 1) for k, v in out["wall_s"].items()}))
     kvlib.guard_ops(c, out, ("tput", "tdel", "rput", "rdel", "tbput", "tbdel", "tbwrite", "tbreset", "tbdrop", "tbreplay",
                              "tsnap", "trelease", "compact", "clear", "goto"))
+    # ---- snapshots taken through a nested table (Table.NewTable) whose prefixes do not commute
+    nsn = spec_nested_snapshots(ex, conf)
+    c.guard("spec_nested_noncommuting_snapshot_states", nsn[0])
+    c.guard("spec_nested_noncommuting_snapshot_states_nonempty", nsn[1])
+    c.guard("spec_nested_noncommuting_snapshot_states_with_wrong_order_key", nsn[2])
+    st = kvlib.sum_stats(out)
+    for g in ("nested_snapshot_reads", "nested_noncommuting_snapshot_reads", "nested_noncommuting_snapshot_reads_nonempty",
+              "nested_snapshot_actions"):
+        c.guard(g, st.get(g, 0))
+    c.log("nested-table snapshots: spec states (all, non-empty view, wrong-order key present) %s; real reads %s" % (
+        list(nsn), {k: v for k, v in st.items() if k.startswith("nested")}))
     # ---- Compact(nil, nil) ranges seen by the recorder, judged by TableCompact.tla
     obs = []
     for name in adapters:
@@ -118,12 +163,14 @@ def run(c):
         table_iterator_stats=ist,
         edges_replayed_on_impl=sum(r["applied"] for r in reports.values()),
         compact_ranges_validated=accepted, prefix_pairs=conf["cfgs"],
+        nested_table_snapshots=dict(spec_states=nsn[0], spec_states_nonempty=nsn[1], spec_states_wrong_order_key=nsn[2],
+                                    real={k: v for k, v in st.items() if k.startswith("nested")}),
         exhaustive=True,
-        rule="complete graph of Table.tla for cfg %s (7 prefix pairs, depth-bounded from designed states, closed by clear/goto); "
+        rule="complete graph of Table.tla for cfg %s (%d prefix pairs, depth-bounded from designed states, closed by clear/goto); "
              "every transition executed on real tables over a recorder over each backend from a rebuilt pre-state, comparing both "
              "table views (%d probe keys, %d (prefix,start) iterations each), the snapshot view, the raw store content and the set "
              "of raw keys written; every distinct Compact(nil,nil) range validated against TableCompact.tla" % (
-                 cfg, len(conf["probe"]), len(conf["iters"])),
+                 cfg, len(conf["cfgs"]), len(conf["probe"]), len(conf["iters"])),
         replay=reports, samples=kvlib.first_sample(out) + obs[:2],
     ), assumptions=[
         "the recorder sits between the tables and the backend; keys queued in a batch count as written when the batch is written",
